@@ -12,6 +12,11 @@ open Bpmn.Props.C20
 #print axioms fallback_unique_across
 #print axioms fallback_same_prefix_collides
 #print axioms fallback_counterexample_nonatomic
+#print axioms fallback_unique_program
+#print axioms fallback_counterexample_same_clock
+#print axioms C20_cex_clock_only_prefix
+#print axioms C20_decided
+#print axioms fallback_prefix_dichotomy
 #print axioms sno_lex_increasing
 #print axioms sno_unique_serialised
 #print axioms sno_unique_single_goroutine
@@ -24,5 +29,7 @@ open Bpmn.Props.C20
 #print axioms fallback_dichotomy
 #print axioms current_sno
 #print axioms current_fallback
+#print axioms current_fallback_prefix
+#print axioms current_statement
 #print axioms current_restore_applies_snapshot
 #print axioms current_fallback_prefix_from_clock
